@@ -56,13 +56,24 @@ def answer_sx(beh, tok):
             "merged_nokeep": [2, tok(MERGED), 0]}.get(beh, [3])
 
 
-def run_one(case):
-    """case = (flavour key, shape, content class, behaviour, schedule tuple, first side)"""
+def _md5_bytes(data):
+    import hashlib
+    return hashlib.md5(data).digest()
+
+
+def _sha1_hex(data):
+    import hashlib
+    return hashlib.sha1(data).hexdigest()
+
+
+def run_one(case, multihash=False):
+    """case = (flavour key, shape, content class, behaviour, schedule tuple, first side); multihash: the two providers
+    hash content with different functions and result types (md5 digest bytes vs sha1 hex string)"""
     fk, shape, ccls, beh, sched, first = case
     E.install()
     E.reset_serials()
     fl = E.Flavour.from_key(fk)
-    world = E.World(fl)
+    world = E.World(fl, hash_funcs=(_md5_bytes, _sha1_hex) if multihash else None)
     eng = E.Engine(world, resolver=make_resolver(beh))
     toks = {}
 
@@ -255,6 +266,31 @@ def run(ctx):
                 ctx.violation("conflict after an interrupted sync: outcome / resolver input differs from the specified one (C05): %s; "
                               "observed %d resolver call(s), views %s; expected (calls, local, remote) = %s"
                               % (casej, r["ncalls"], r["views"], ans[1:]),
+                              dict(kind="conflict-run", case=casej, observed=dict(calls=r["ncalls"], views=r["views"]), expected=ans[1:]))
+        # ---- deterministic family: providers with hash functions of different types (identical content on both sides must
+        # still be merged without a resolver call; different content must still reach the resolver once)
+        mcases = [(fk, shape, ccls, beh, sch, first) for fk in flavours[:2] for shape in ("create", "edit")
+                  for ccls in ("equal", "distinct", "empty_vs_nonempty") for beh in ("none", "pick_local_keep", "raises")
+                  for sch in ((), ("I1", "I0", "S")) for first in (0, 1)]
+        mres = [run_one(c, multihash=True) for c in mcases]
+        model = fw.ModelProc("resolver")
+        mans = model.batch([r["req"] for r in mres if "req" in r])
+        model.close()
+        it3 = iter(mans)
+        stats["multihash"] = dict(runs=len(mres), accepted=0)
+        for r in mres:
+            fk, shape, ccls, beh, sch, first = r["case"]
+            casej = dict(flavour=fk, shape=shape, contents=ccls, behaviour=beh, schedule=list(sch), first_side=first, multihash=True)
+            if "req" not in r:
+                ctx.violation("conflict run with providers of different hash types did not settle: %s (%s)" % (r.get("error"), casej),
+                              dict(kind="conflict-run", case=casej))
+                continue
+            ans = next(it3)
+            if ans == [1]:
+                stats["multihash"]["accepted"] += 1
+            else:
+                ctx.violation("conflict outcome differs from the specified one with providers of different hash types (C05): %s; observed "
+                              "%d resolver call(s), views %s; expected (calls, local, remote) = %s" % (casej, r["ncalls"], r["views"], ans[1:]),
                               dict(kind="conflict-run", case=casej, observed=dict(calls=r["ncalls"], views=r["views"]), expected=ans[1:]))
         # ---- deterministic probe: merged data with keep = True.  The property states no outcome for it, but whatever the
         # resolver answers the engine must reach a quiet state in a bounded number of steps (C01); it does not (finding E-7).
